@@ -74,6 +74,39 @@ func domains(chain, typ string, thorough bool) map[string][]interface{} {
 	panic(typ)
 }
 
+// extended adds, per field kind, values chosen so that two neighbouring fields of a hashed string
+// collide whenever their separator is missing: integers {1,12,112 | 3,23,123,120,0}, hex strings
+// {"", 12, 1212, aa, aa12}, free-form strings with digits and separators.
+func extended(dom map[string][]interface{}) map[string][]interface{} {
+	out := map[string][]interface{}{}
+	for f, vs := range dom {
+		ext := append([]interface{}(nil), vs...)
+		switch vs[0].(type) {
+		case uint64:
+			for _, x := range []uint64{1, 12, 112, 3, 23, 123, 120, 0} {
+				ext = append(ext, x)
+			}
+		case sdkmath.Int:
+			for _, x := range []int64{1, 12, 112, 3, 23, 123, 120, 0} {
+				ext = append(ext, sdkmath.NewInt(x))
+			}
+		case string:
+			switch f {
+			case "Data", "Memo", "Cause", "TargetIbc", "ChannelIbc":
+				for _, x := range []string{"", "12", "1212", "aa", "aa12", "0012"} {
+					ext = append(ext, x)
+				}
+			case "Name", "Symbol":
+				for _, x := range []string{"1", "12", "A/1", "1/A", "6", "18"} {
+					ext = append(ext, x)
+				}
+			}
+		}
+		out[f] = ext
+	}
+	return out
+}
+
 func clone(c cctypes.ExternalClaim) cctypes.ExternalClaim {
 	return scen.WithBridger(c, reflect.ValueOf(c).Elem().FieldByName("BridgerAddress").String())
 }
@@ -164,12 +197,13 @@ func run(thorough bool) func(shard, shards int, deadline time.Time) *explore.Res
 							return
 						}
 						res.Outcomes[typ+"=valid"]++
-						h := hex.EncodeToString(c.ClaimHash())
+						// claims for different event nonces are never tallied together: bucket per nonce
+						h := fmt.Sprintf("%d|%s", c.GetEventNonce(), hex.EncodeToString(c.ClaimHash()))
 						p := project(typ, c)
 						for _, e := range buckets[h] {
 							if d := diffFields(e.proj, p); len(d) > 0 {
 								sig := fmt.Sprintf("C03/same-hash-different-%s/%s", strings.Join(d, "+"), typ)
-								addViol(sig, "claim-hash-injective-on-executed-fields", fmt.Sprintf("%s claims with equal ClaimHash %s differ in executed field(s) %v:\n  %s\n  %s", typ, h[:16], d, e.desc, strings.Join(desc, " ")), []string{e.desc, strings.Join(desc, " ")})
+								addViol(sig, "claim-hash-injective-on-executed-fields", fmt.Sprintf("%s claims with equal ClaimHash %s differ in executed field(s) %v:\n  %s\n  %s", typ, h[:18], d, e.desc, strings.Join(desc, " ")), []string{e.desc, strings.Join(desc, " ")})
 							}
 						}
 						if len(buckets[h]) < 8 {
@@ -184,6 +218,22 @@ func run(thorough bool) func(shard, shards int, deadline time.Time) *explore.Res
 					}
 				}
 				rec(0, base, nil)
+				// ---- half 1b: every pair of fields over the extended (shift-closed) domains, the other fields at
+				// the baseline: finds collisions that need two fields to change together (a digit or byte moving
+				// across a field boundary of the hashed string)
+				ext := extended(dom)
+				for i := 0; i < len(fields); i++ {
+					for j := i + 1; j < len(fields); j++ {
+						for _, vi := range ext[fields[i]] {
+							for _, vj := range ext[fields[j]] {
+								cc := clone(base)
+								set(cc, fields[i], vi)
+								set(cc, fields[j], vj)
+								rec(len(fields), cc, []string{fmt.Sprintf("%s=%v", fields[i], vi), fmt.Sprintf("%s=%v", fields[j], vj), "(others baseline)"})
+							}
+						}
+					}
+				}
 				res.Extra["distinct_nontrivial"] += float64(len(buckets))
 				res.Counters["hash-buckets/"+typ] += len(buckets)
 				// ---- half 2: schedules in the real keeper: o1 votes A, o2 votes B for every single-field-different pair
